@@ -25,7 +25,9 @@ THEOREMS = [
     "C04_merge_cli_then_file", "C04_merge_keeps_cli", "C04_merge_no_duplicates", "C04_stack_follows_cmdline",
 ]
 RULE = ("universes of two projects whose versions (finals, pre/post releases, respelled names) are split at random over "
-        "0-3 solution files, 0-2 source trees (setup.py projects), 0-3 find-links directories of generated wheels (some "
+        "0-3 solution files, 0-2 source trees (setup.py projects; flat trees and workspaces whose root is itself a project with "
+        "further projects nested in sub-directories, some below a test directory of another project or a never-searched "
+        "directory; the offered set is computed by the harness's own walk oracle), 0-3 find-links directories of generated wheels (some "
         "with unreadable content) and 0-2 index URLs + default / extra index served by fake sessions, with random "
         "--upgrade-package sets, --no-index, allow_prerelease; the stack is built by the real cmdline.build_repo; 3-5 "
         "requests per universe (respelled names, specifiers around the stored versions, unknown project, budgets "
@@ -96,6 +98,73 @@ def gen_version_pool(rng) -> List[str]:
     return out
 
 
+SPECIAL_HERE = ["build", "dist", "venv", ".git", "node_modules"]      # a few of the never-searched directory names
+TEST_DIRS = ["tests", "test", "it-tests", "unit-test"]
+
+
+def gen_source_tree(rng, pick) -> List[List[str]]:
+    """[[sub-directory, project name, version], ...]: flat trees (projects in sibling directories, the control)
+    and workspaces whose root is itself a project with further projects nested in sub-directories, some of them
+    below a test directory of another project or below a never-searched directory"""
+    projs: List[List[str]] = []
+    main = lambda: rng.choice(["foo-bar", "foo_bar", "Foo.Bar"])
+    if rng.random() < 0.45:                                   # flat
+        if rng.random() < 0.7:
+            projs.append(["p0", main(), pick()])
+        if rng.random() < 0.3:
+            projs.append(["p1", "baz", pick()])
+        if rng.random() < 0.15 and projs and projs[0][1] != "baz":
+            v2 = pick()
+            if v2 != projs[0][2]:
+                projs.append(["p2", "foo-bar", v2])
+        return projs
+    root_is_project = rng.random() < 0.7                      # workspace
+    if root_is_project:
+        projs.append([".", rng.choice(["workspace", "workspace", "baz"]), pick()])
+    have_baz = any(p[1] == "baz" for p in projs)
+    spots = ["pkgs/core", "libs/a", "sub", "sub/deeper", "pkgs/core/plugin"]
+    rng.shuffle(spots)
+    if rng.random() < 0.85:
+        projs.append([spots.pop(), main(), pick()])
+    if not have_baz and rng.random() < 0.5:
+        projs.append([spots.pop(), "baz", pick()])
+    r = rng.random()
+    used = {p[1] for p in projs}
+    hidden_name = "baz" if "baz" not in used else ("foo-bar" if not any(pep503(n) == "foo-bar" for n in used) else None)
+    if hidden_name and r < 0.45:
+        # below a test directory / a never-searched directory: offered only if the parent is not a project
+        where = rng.choice([rng.choice(TEST_DIRS) + "/helper", rng.choice(TEST_DIRS), "pkgs/core/" + rng.choice(TEST_DIRS) + "/h",
+                            rng.choice(SPECIAL_HERE) + "/x", "libs/" + rng.choice(SPECIAL_HERE)])
+        if all(where != p[0] and not p[0].startswith(where + "/") for p in projs):
+            projs.append([where, hidden_name, pick()])
+    return projs
+
+
+def is_test_dir(name: str) -> bool:
+    return name in ("tests", "test") or name.endswith("-tests") or name.endswith("-test")
+
+
+def offered(projs: List[List[str]]) -> List[List[str]]:
+    """independent walk oracle: the project directories a source tree offers -- directories with a setup.py that
+    are not (below) a never-searched directory and not (below) a test directory of another project directory"""
+    dirs = {os.path.normpath(p[0]) for p in projs}
+    out = []
+    for p in projs:
+        comps = [] if os.path.normpath(p[0]) == "." else os.path.normpath(p[0]).split("/")
+        ok = True
+        for k, c in enumerate(comps):
+            parent = "/".join(comps[:k]) or "."
+            if c in SPECIAL_HERE or (is_test_dir(c) and parent in dirs):
+                ok = False
+        if ok:
+            out.append(p)
+    return out
+
+
+def src_label(i: int, sub: str) -> str:
+    return os.path.normpath(os.path.join("src%d" % i, sub))
+
+
 def gen_universe(rng) -> Dict[str, Any]:
     pool = gen_version_pool(rng)
     pick = lambda: rng.choice(pool)
@@ -111,15 +180,7 @@ def gen_universe(rng) -> Dict[str, Any]:
         sols.append(lines)
     srcs = []
     for i in range(rng.choice([0, 0, 1, 1, 2])):
-        projs = []
-        if rng.random() < 0.7:
-            projs.append(["p0", rng.choice(["foo-bar", "foo_bar", "Foo.Bar"]), pick()])
-        if rng.random() < 0.3:
-            projs.append(["p1", "baz", pick()])
-        if rng.random() < 0.15 and projs and projs[0][1] != "baz":
-            v2 = pick()
-            if v2 != projs[0][2]:
-                projs.append(["p2", "foo-bar", v2])
+        projs = gen_source_tree(rng, pick)
         srcs.append(projs)
 
     def wheels(n_max: int) -> List[List[Any]]:
@@ -667,8 +728,8 @@ def universe_tokens(mods, u: Dict[str, Any]) -> List[str]:
     srcs = []
     for i, projs in enumerate(u["sources"]):
         hs = []
-        for sub, name, ver in projs:
-            hs.append(("", cand_tok(enc440, name, Version(ver), "O", True, True, "", src_ts, "%d:src%d/%s" % (nid, i, sub))))
+        for sub, name, ver in offered(projs):
+            hs.append(("", cand_tok(enc440, name, Version(ver), "O", True, True, "", src_ts, "%d:%s" % (nid, src_label(i, sub)))))
         srcs.append(repo_tokens(mods, "T", nid, [], hs))
         nid += 1
     fls = [wheel_repo("F", ws) for ws in u["find_links"]]
@@ -701,7 +762,7 @@ def holders(u: Dict[str, Any], reqname: str) -> int:
     for lines in u["solutions"]:
         n += any(pep503(l[0]) == want for l in lines)
     for projs in u["sources"]:
-        n += any(pep503(p[1]) == want for p in projs)
+        n += any(pep503(p[1]) == want for p in offered(projs))
     groups = list(u["find_links"])
     if not u["no_index"]:
         groups += list(u["index_urls"]) if u["index_urls"] else [u["default"]]
@@ -768,6 +829,12 @@ def correspondence(ctx: Ctx) -> None:
             utoks = universe_tokens(mods, u)
             ctx.count("stack:%dS/%dT/%dF/%dI%s%s" % (len(u["solutions"]), len(u["sources"]), len(u["find_links"]), len(u["index_urls"]),
                                                       "/X%d" % len(u["extra"]) if u["extra"] is not None else "", "/no-index" if u["no_index"] else ""))
+            for projs in u["sources"]:
+                if projs:
+                    ctx.count("source-tree:" + ("workspace-root-is-project" if any(p[0] == "." for p in projs) else
+                                                 "nested" if any("/" in p[0] for p in projs) else "flat"))
+                    if len(offered(projs)) < len(projs):
+                        ctx.count("source-tree:holds-a-project-that-is-not-offered")
             for rq in u["requests"]:
                 obs = run_request(mods, b, rq)
                 rt = rq_tokens(mods, rq["req"])
@@ -902,7 +969,7 @@ def coq_recheck(ctx: Ctx, mods, items: List[Tuple[Dict[str, Any], str]]) -> None
             hs = ["({}, {})".format('""', ccand(pkg_resources.safe_name(n), Version(v), "Source", True, True, "", [0, 0, 0, 1], "%d:" % nid)) for n, v, _ in lines]
             sols.append("(mkRepo KSolution {}%N [{}] {})".format(nid, "; ".join(hs), excl)); nid += 1
         for i, projs in enumerate(u["sources"]):
-            hs = ["({}, {})".format('""', ccand(n, Version(v), "Source", True, True, "", [0, 0, 0, 1], "%d:src%d/%s" % (nid, i, sub))) for sub, n, v in projs]
+            hs = ["({}, {})".format('""', ccand(n, Version(v), "Source", True, True, "", [0, 0, 0, 1], "%d:%s" % (nid, src_label(i, sub)))) for sub, n, v in offered(projs)]
             srcs.append("(mkRepo KSource {}%N [{}] [])".format(nid, "; ".join(hs))); nid += 1
         for ws in u["find_links"]:
             fls.append(wheel_repo("KFindLinks", ws, nid)); nid += 1
@@ -992,7 +1059,7 @@ def oracle(mods, u: Dict[str, Any], rq: Dict[str, Any], base: str) -> Optional[s
         if rec and not excl and req.specifier.contains(rec[0], prereleases=True):
             should.append(i)
     for i, projs in enumerate(u["sources"]):
-        vs = [Version(v) for _, n, v in projs if pep503(n) == pep503(req.name)]
+        vs = [Version(v) for _, n, v in offered(projs) if pep503(n) == pep503(req.name)]
         if any(req.specifier.contains(v, prereleases=True) for v in vs):
             should.append(len(u["solutions"]) + i)
     # find-links directories and indexes: a readable installable wheel whose final version satisfies
